@@ -27,7 +27,7 @@ META = {
     "assumptions": [
         "machine arithmetic treated as mathematical (counts are exact small integers in float64; no overflow)",
         "closed world: HistContainer is not subclassed with overriding methods; no concurrent mutation",
-        "HistContainer.__init__ is checked only by the bounded native enumeration (constructor argument normalisation)",
+        "HistContainer.__init__: only the refusal of a descending bin_range (n_bins + bin_range form) is under contract (C19 unit, sliced on low/high); the argument normalisation of the other forms is checked by the bounded native enumeration alone",
     ],
     "bounded": [{"what": "HistContainer.__init__ argument handling, and every observer after arbitrary fill/read/rebin histories", "bound": "native: <= 2 bins over a 4-value ordered set with ties, <= 3 entries in <= 2 batches, all read orders; histories <= 3 ops"}],
 }
